@@ -1,4 +1,5 @@
 """C12 -- Summary tables are exact group-bys of their source (kernel K5, Model/Summary.v)."""
+import ast
 import collections
 import copy
 import random
@@ -8,7 +9,7 @@ from harness import core
 
 ID = 'C12'
 TITLE = 'Summary tables are exact group-bys of their source'
-PROPS = ['Props/C12']
+PROPS = ['Props/C12', 'Props/C12code']
 
 
 def G():
@@ -255,7 +256,7 @@ WEIGHTS = {
   'summary': 6, 'summaryformula': 2, 'updsummary': 5, 'label': 1, 'renamechoices': 2, 'upsert': 1,
   'invalid': 1,
   # kinds added by SummaryGen
-  'listflip': 4, 'gbupdate': 10, 'summary0': 1, 'chainref': 2,
+  'listflip': 4, 'gbupdate': 10, 'summary0': 1, 'chainref': 2, 'movesort': 5,
 }
 
 GB_TYPES = ['Text', 'Int', 'Choice', 'ChoiceList', 'ChoiceList', 'Any', 'Bool', 'Date', 'Numeric']
@@ -332,6 +333,28 @@ def make_gen(rng, direct=False):
           return None
         gb = r.sample(cols, min(len(cols), r.choice([1, 1, 2, 2, 3])))
         return ['CreateViewSection', t['id'], 0, 'record', [c['id'] for c in gb], None]
+      if kind == 'movesort':
+        # display order != row id order: move a record (manualSort) or insert one between two others
+        t = self.pick_table(meta)
+        if t is None or not any(c['colId'] == 'manualSort' for c in meta.by_table[t['id']]):
+          return None
+        tid = t['tableId']
+        rows = meta.rows(tid)
+        if len(rows) < 2:
+          return None
+        d = meta.e.fetch_table(tid)
+        pos = sorted(float(x) for x in d.columns['manualSort'] if isinstance(x, (int, float)))
+        if len(pos) < 2:
+          return None
+        i = r.randrange(len(pos) - 1)
+        where = r.choice([pos[0] - 1.0, (pos[i] + pos[i + 1]) / 2.0, pos[-1] + 1.0, (pos[0] + pos[1]) / 2.0])
+        if r.random() < 0.6:
+          return ['UpdateRecord', tid, r.choice(rows), {'manualSort': where}]
+        gcols = [c for c in self.gb_source_cols(meta) if c['parentId'] == t['id'] and not c['isFormula']]
+        vals = {'manualSort': where}
+        for c in gcols:
+          vals[c['colId']] = self.value(c['type'], meta)
+        return ['AddRecord', tid, None, vals]
       if kind == 'chainref':
         # a Ref / RefList column into a SUMMARY table (later used as group-by of a second summary table)
         t, st = self.pick_table(meta), self.pick_table(meta, summary=True)
@@ -996,6 +1019,20 @@ SCRIPTS = collections.OrderedDict([
     [['UpdateRecord', 'T_summary_A', 1, {'A': 'q'}]],
     [['RemoveRecord', 'T_summary_A', 1]],
   ]),
+  ('display-order', [
+    [['AddTable', 'T', _t([('A', 'Text'), ('L', 'ChoiceList')])]],
+    [['BulkAddRecord', 'T', [None] * 4, {'A': ['a', 'b', 'a', 'a'], 'L': [['L', 'x'], ['L', 'x', 'y'], ['L', 'y'], ['L', 'x']]}]],
+    [['CreateViewSection', 1, 0, 'record', [2], None]],
+    [['CreateViewSection', 1, 0, 'record', [3], None]],
+    [['CreateViewSection', 1, 0, 'record', [], None]],
+    [['UpdateRecord', 'T', 1, {'manualSort': 3.5}]],            # record 1 is displayed after record 3
+    [['UpdateRecord', 'T', 2, {'A': 'a'}]],
+    [['AddRecord', 'T', None, {'A': 'a', 'L': ['L', 'x', 'y'], 'manualSort': 0.5}]],   # inserted in front
+    'UNDO',
+    [['BulkUpdateRecord', 'T', [3, 4], {'manualSort': [0.25, 0.125]}]],
+    [['UpdateRecord', 'T', 4, {'L': ['L', 'y']}]],
+    [['RemoveRecord', 'T', 1]],
+  ]),
   ('chained-summaries', CHAIN_PREFIX + [
     [['RemoveRecord', 'T', 1]],                       # empties group 'x': second-round removal in U_summary_R
     'UNDO',
@@ -1037,7 +1074,8 @@ RULE = ('histories of user-action bundles on 1-3 tables (harness/histgen.py, sum
         'source rows and columns, several summary tables of one source, undo of the previous bundle), a separate stream '
         'with AddRecord directly on summary tables, a stream with CHAINED summaries (Ref/RefList columns into a summary '
         'table used as group-by of a second summary table, existing key-0 rows, edits that empty first-level groups so '
-        'that removals cascade over several rounds of the settle loop), and scripted scenarios; one case = one summary table after one '
+        'that removals cascade over several rounds of the settle loop), records moved or inserted between others (manualSort '
+        'differs from row id order), and scripted scenarios; one case = one summary table after one '
         'successful bundle; non-trivial when the bundle touched the source or the summary table (stored actions)')
 TRUSTED = ['Model/Summary.v is hand-written; tied on every run: for every successful bundle and every summary table the '
            'summary rows before the settle loop, the entries of the helper column\'s lookup map, the helper cells the engine '
@@ -1284,3 +1322,90 @@ def replay(ctx, w):
     if kind == w.get('kind'):
       return what
   return None
+
+
+# ------------------------------------------------------------------------------------------------
+# Source pins: the two small functions the model follows literally (fail closed when they change)
+
+# Not translated, pinned by the hash of their AST (docstrings and comments ignored): the glue around the translated
+# functions.  (file, class, function) -> sha1; filled from the tree the model was written from.
+PINS = {
+  "table.py:Table._add_update_summary_col:glue": "dc81edecf32dbb02",
+  "table.py:Table.lookup_one_record": "408bbc385b66855e",
+  "docmodel.py:DocModel.setAutoRemove": "6d74f3e92e8ddbeb",
+  "docmodel.py:DocModel.apply_auto_removes": "d81c334b9428fbb0",
+  "useractions.py:UserActions.doBulkRemoveRecord": "641a9570fae321f3",
+  "column.py:BaseReferenceColumn.get_updates_for_removed_target_rows": "f7d97ddea1c86e43",
+  "records.py:RecordSet.get_one": "f70608e2883cf50a",
+  "engine.py:Engine.apply_user_actions:settle-loop": "63bf6ee9b087f243",
+  "table.py:Table.lookup_records:order_by-default-id": "True",
+}
+
+
+def _body_hash(fn):
+  import hashlib
+  body = [b for b in fn.body if not (isinstance(b, ast.Expr) and isinstance(getattr(b, 'value', None), ast.Constant)
+                                      and isinstance(b.value.value, str))]
+  return hashlib.sha1(ast.dump(ast.Module(body=body, type_ignores=[])).encode()).hexdigest()[:16]
+
+
+PINNED = [('table.py', 'Table', '_add_update_summary_col'), ('table.py', 'Table', 'lookup_one_record'),
+          ('docmodel.py', 'DocModel', 'setAutoRemove'), ('docmodel.py', 'DocModel', 'apply_auto_removes'),
+          ('useractions.py', 'UserActions', 'doBulkRemoveRecord'),
+          ('column.py', 'BaseReferenceColumn', 'get_updates_for_removed_target_rows'),
+          ('records.py', 'RecordSet', 'get_one')]
+
+
+def _func_hashes():
+  import os
+  out = {}
+  trees = {}
+  for (fname, cls, fn) in PINNED + [('engine.py', 'Engine', 'apply_user_actions'), ('table.py', 'Table', 'lookup_records')]:
+    if fname not in trees:
+      with open(os.path.join(core.GRIST, fname)) as f:
+        trees[fname] = ast.parse(f.read())
+    node = None
+    for c in ast.walk(trees[fname]):
+      if isinstance(c, ast.ClassDef) and c.name == cls:
+        for x in c.body:
+          if isinstance(x, ast.FunctionDef) and x.name == fn:
+            node = x
+    if node is None:
+      out['%s:%s.%s' % (fname, cls, fn)] = 'missing'
+      continue
+    if fn == 'apply_user_actions':
+      # the end of the bundle: everything from the first _bring_all_up_to_date() on (the settle loop)
+      idx = [i for i, st in enumerate(node.body) if ast.unparse(st) == 'self._bring_all_up_to_date()']
+      tail = node.body[idx[0]:] if idx else []
+      import hashlib
+      out['engine.py:Engine.apply_user_actions:settle-loop'] = hashlib.sha1(
+        ast.dump(ast.Module(body=tail, type_ignores=[])).encode()).hexdigest()[:16] if tail else 'missing'
+    elif fn == 'lookup_records':
+      out['table.py:Table.lookup_records:order_by-default-id'] = str(any(
+        isinstance(b, ast.Assign) and ast.unparse(b.value) == "kwargs.pop('order_by', 'id')" for b in ast.walk(node)))
+    elif fn == '_add_update_summary_col':
+      # the two formulas are translated; pin the rest (which formula is installed when, under which column id)
+      import copy
+      n2 = copy.deepcopy(node)
+      for st in ast.walk(n2):
+        if isinstance(st, ast.FunctionDef) and st.name == '_updateSummary':
+          st.body = [ast.Pass()]
+      out['table.py:Table._add_update_summary_col:glue'] = _body_hash(n2)
+    else:
+      out['%s:%s.%s' % (fname, cls, fn)] = _body_hash(node)
+  return out
+
+
+def regenerate(ctx):
+  import os
+  from harness import sum2v
+  try:
+    text = sum2v.translate(os.path.join(core.GRIST, 'table.py'), os.path.join(core.GRIST, 'column.py'))
+  except sum2v.Untranslatable as e:
+    raise core.TieBroken('summary maintenance code is outside the translated subset: %s' % e)
+  core.write_if_changed(os.path.join(core.COQ, 'gen', 'Summary_gen.v'), text)
+  got = _func_hashes()
+  for name, want in sorted(PINS.items()):
+    if got.get(name) != want:
+      raise core.TieBroken('%s is not the code Model/Summary*.v follows (pin %s, found %s): re-read it, adjust the '
+                           'model and the pin' % (name, want, got.get(name)))
